@@ -24,7 +24,7 @@ class C19(object):
                 "formula, balance) - there is no Lean model of np.percentile")
 
     def gen(self, rng, tier):
-        n = 200 if tier == 'quick' else 4000
+        n = 200 if tier == 'quick' else 25000
         if tier == 'thorough':
             import itertools
             for L in range(1, 11):
